@@ -425,21 +425,22 @@ fn decode_history<F: Family>(input: &Input, ctx: &mut Ctx) -> CaseResult {
         let op = if i + 1 == n { 0 } else { t.pick(4) };
         if op >= 2 && enc.len() > 2 {
             // deliver k bytes, then Pending for as long as we poll; drop everything
+            // (a stall at a stream position: the decoders size their own reads, so "after k bytes" cannot be scripted per call)
             let k = 1 + t.pick(enc.len() - 1);
-            let mut steps = vec![Step::Chunk(k)];
-            for _ in 0..6 {
-                steps.push(Step::Pending);
-            }
+            let steps: Vec<Step> = Vec::new();
             let polls = 1 + t.pick(3);
             if op == 2 {
                 let mut rd = ScriptedReader::new(&enc, &steps);
+                rd.stall_at = Some(k);
                 let r = sio::poll_n(F::decode_async(&mut rd), polls);
                 ensure!(r.is_none() || matches!(&r, Some(Ok(q)) if *q == p), "async decoder finished with a different result although only {} of {} bytes were delivered", k, enc.len());
             } else {
                 let mut rd = ScriptedReader::new(&enc, &steps);
+                rd.stall_at = Some(k);
                 let mut state: GenericPollPacketState<F::Header> = GenericPollPacketState::default();
                 let r = sio::poll_n(GenericPollPacket::new(&mut state, &mut rd), polls);
                 ensure!(r.is_none(), "poll decoder finished although only {} of {} bytes were delivered", k, enc.len());
+                ensure!(rd.pos == k, "MQV-INTERNAL: the abandoned poll decode consumed {} bytes instead of {}", rd.pos, k);
             }
             abandoned += 1;
             ctx.label("abandoned-decode");
